@@ -490,8 +490,14 @@ def scalar_block(ctx, name):
     ctx.need(len(data_draws) == 1, f"{f.site()}: the data-arm draw self.{P}[{i}] = normal(mean, sd) was not found")
     MEAN_N = data_draws[0].value.args[0].id if isinstance(data_draws[0].value.args[0], ast.Name) else "mean"
     SD_N = data_draws[0].value.args[1].id if isinstance(data_draws[0].value.args[1], ast.Name) else "stddev"
-    mean = one({k: [v for v in vs if not (isinstance(v, ast.Constant))] for k, vs in A.items()}, MEAN_N, f)
-    sds = [v for v in A.get(SD_N, []) if id(v) not in in_prior]
+    if isinstance(data_draws[0].value.args[0], ast.Name):
+        mean = one({k: [v for v in vs if not (isinstance(v, ast.Constant))] for k, vs in A.items()}, MEAN_N, f)
+    else:
+        mean = data_draws[0].value.args[0]               # written in place in the draw
+    if isinstance(data_draws[0].value.args[1], ast.Name):
+        sds = [v for v in A.get(SD_N, []) if id(v) not in in_prior]
+    else:
+        sds = [data_draws[0].value.args[1]]
     ctx.need(len(sds) == 1, f"{f.site()}: data-arm stddev not found")
     RESID_N = "resid"
     for x in ast.walk(mean):
@@ -521,8 +527,8 @@ def scalar_block(ctx, name):
     ok_sd = Ne.n(sds[0]) == Nn.n(parse_expr(f"1.0 / np.sqrt({denom})"))
     ctx.check("R4", f"{f.site()}::mean", ok_mean, f"mean == prec * sum(resid) / (prec * len({I}) + {prior})", f"conditional mean is `{U(inline(mean, env))}`")
     ctx.check("R4", f"{f.site()}::stddev", ok_sd, f"sd == (prec * len({I}) + {prior})^(-1/2)", f"conditional sd is `{U(inline(sds[0], env))}`")
-    draws = [n for n in walk_own(loop) if isinstance(n, ast.Assign) and isinstance(n.value, ast.Call) and attr_tail(n.value) == "normal" and U(n.value.args[0]) == MEAN_N]
-    ok = len(draws) == 1 and U(draws[0].targets[0]) == f"self.{P}[{i}]" and U(draws[0].value.args[1]) == SD_N
+    draws = data_draws
+    ok = len(draws) == 1 and U(draws[0].targets[0]) == f"self.{P}[{i}]"
     ctx.check("R4", f"{f.site()}::draw", ok, f"self.{P}[{i}] = normal(mean, stddev)", f"the block's draw is `{U(draws[0]) if draws else None}`")
     ok = pd is not None and U(pd.targets[0]) == f"self.{P}[{i}]"
     if ok:
@@ -785,6 +791,8 @@ def r6(ctx):
             why = ""
             for n in nodes:
                 # every path from the draw to the exit passes a good clip
+                if n in good:
+                    continue            # the draw is clipped in the statement that stores it
                 if not g.must_pass(n, g.exit, lambda x: x in good):
                     if (m, attr) in CLIP_EXEMPT:
                         # exemption only for the early-return prior arm
